@@ -252,53 +252,57 @@ func ruleWithdrawClass(r *core.Run) {
 	if fn == nil {
 		return
 	}
-	res := r.Resolver(fn)
-	ck := &guard.Checker{P: r.P, Fn: fn, Res: res}
 	waiting := constVal(r, "order/types", "ShardWaiting")
 	completed := constVal(r, "order/types", "ShardCompleted")
 	status := "*order/keeper.Keeper.GetShard(*)#0.Status"
 	n := 0
 	cnt := map[string]int{}
-	for _, l := range cfgx.Loops(fn) {
-		if !rangesField(r, fn, l, "Shards") {
-			continue
-		}
-		for _, b := range fn.Blocks {
-			if !l.Body[b] {
+	// the per-shard loop may have been moved into a helper: every frame under Withdraw is searched, terms and
+	// guards are expressed in Withdraw's vocabulary (#2 = the order)
+	for _, fr := range frames(r, fn) {
+		res := r.Resolver(fr.Fn)
+		for _, l := range cfgx.Loops(fr.Fn) {
+			if !rangesField(r, fr.Fn, l, "Shards") {
 				continue
 			}
-			for _, ins := range b.Instrs {
-				c, ok := ins.(*ssa.Call)
-				if !ok {
+			for _, b := range fr.Fn.Blocks {
+				if !l.Body[b] {
 					continue
 				}
-				name, _ := res.CalleeName(&c.Call)
-				if name != "sdk.Dec.Add" || len(c.Call.Args) != 2 {
-					continue
-				}
-				n++
-				t := res.Of(c.Call.Args[1]).String()
-				class, atoms := "unclassified", []guard.Atom{guard.Eq(status, waiting), guard.Eq(status, completed)}
-				switch {
-				case strings.Contains(t, "int64(#2.Duration)"):
-					class, atoms = "full-term", []guard.Atom{guard.Eq(status, waiting)}
-				case strings.Contains(t, ".CreatedAt"):
-					class, atoms = "remaining-term", []guard.Atom{guard.Eq(status, completed)}
-				}
-				cnt[class]++
-				key := core.Key(id, "market/keeper.Keeper.Withdraw", fmt.Sprintf("%s#%d", class, cnt[class]))
-				ok2, w := ck.MustPass(b, atoms)
-				if ok2 && class == "remaining-term" {
-					// conjunction, in either order: the shard also belongs to this order's paid period
-					ok2, w = ck.MustPass(b, []guard.Atom{guard.Eq("*order/keeper.Keeper.GetShard(*)#0.OrderId", "#2.Id")})
-				}
-				switch {
-				case ok2:
-					r.Discharge(id, key, r.P.Pos(c.Pos()), "the "+class+" contribution is added only under "+atoms[0].Desc)
-				case len(w) == 1 && w[0] == guard.StateBound:
-					r.Undecide(id, key, r.P.Pos(c.Pos()), "abstract-state bound exceeded")
-				default:
-					r.Violate(id, key, r.P.Pos(c.Pos()), fmt.Sprintf("Withdraw adds a %s refund contribution for a shard without establishing %s: a shard in another state (e.g. the migrating copy of a replica that is settled through its old shard) is refunded as if it were an unstarted replica, so refund + provider income exceeds what the order was charged and the market escrow pays it from other orders' money", class, atoms[0].Desc), append([]string{"path (branch decisions):"}, w...)...)
+				for _, ins := range b.Instrs {
+					c, ok := ins.(*ssa.Call)
+					if !ok {
+						continue
+					}
+					name, _ := res.CalleeName(&c.Call)
+					if name != "sdk.Dec.Add" || len(c.Call.Args) != 2 {
+						continue
+					}
+					n++
+					t := fr.T(r, c.Call.Args[1])
+					class, atoms := "unclassified", []guard.Atom{guard.Eq(status, waiting), guard.Eq(status, completed)}
+					switch {
+					case strings.Contains(t, "int64(#2.Duration)"):
+						class, atoms = "full-term", []guard.Atom{guard.Eq(status, waiting)}
+					case strings.Contains(t, ".CreatedAt"):
+						class, atoms = "remaining-term", []guard.Atom{guard.Eq(status, completed)}
+					}
+					cnt[class]++
+					key := core.Key(id, "market/keeper.Keeper.Withdraw", fmt.Sprintf("%s#%d", class, cnt[class]))
+					site := effSite{Ins: c, Chain: fr.Chain}
+					ok2, w := mustPassDeep(r, fn, site, atoms)
+					if ok2 && class == "remaining-term" {
+						// conjunction, in either order: the shard also belongs to this order's paid period
+						ok2, w = mustPassDeep(r, fn, site, []guard.Atom{guard.Eq("*order/keeper.Keeper.GetShard(*)#0.OrderId", "#2.Id")})
+					}
+					switch {
+					case ok2:
+						r.Discharge(id, key, r.P.Pos(c.Pos()), "the "+class+" contribution is added only under "+atoms[0].Desc)
+					case len(w) == 1 && w[0] == guard.StateBound:
+						r.Undecide(id, key, r.P.Pos(c.Pos()), "abstract-state bound exceeded")
+					default:
+						r.Violate(id, key, r.P.Pos(c.Pos()), fmt.Sprintf("Withdraw adds a %s refund contribution for a shard without establishing %s: a shard in another state (e.g. the migrating copy of a replica that is settled through its old shard) is refunded as if it were an unstarted replica, so refund + provider income exceeds what the order was charged and the market escrow pays it from other orders' money", class, atoms[0].Desc), append([]string{"path (branch decisions):"}, w...)...)
+					}
 				}
 			}
 		}
@@ -319,61 +323,111 @@ func ruleReplicaGiveUp(r *core.Run) {
 	if fn == nil {
 		return
 	}
-	res := r.Resolver(fn)
-	ck := &guard.Checker{P: r.P, Fn: fn, Res: res}
-	waiting := constVal(r, "order/types", "ShardWaiting")
 	n := 0
-	for _, b := range fn.Blocks {
-		for _, ins := range b.Instrs {
-			st, ok := ins.(*ssa.Store)
-			if !ok {
-				continue
-			}
-			fa, ok := st.Addr.(*ssa.FieldAddr)
-			if !ok || fieldPath(fa) != "order/types.Order.Replica" {
-				continue
-			}
-			bo, ok := st.Val.(*ssa.BinOp)
-			if !ok || bo.Op != token.SUB {
-				continue
-			}
-			n++
-			key := core.Key(id, fnName, fmt.Sprintf("Replica decrement#%d", n))
-			v := bo.Y
-			for {
-				if c, ok := v.(*ssa.Convert); ok {
-					v = c.X
+	// the decrement may sit in a helper extracted from the handler: every frame is searched
+	for _, fr := range frames(r, fn) {
+		res := r.Resolver(fr.Fn)
+		for _, b := range fr.Fn.Blocks {
+			for _, ins := range b.Instrs {
+				st, ok := ins.(*ssa.Store)
+				if !ok {
 					continue
 				}
-				break
-			}
-			okCounter := false
-			why := "the amount subtracted (" + shorten(normT(res.Of(bo.Y).String())) + ") is not a counter"
-			if _, isPhi := v.(*ssa.Phi); isPhi {
-				okCounter = true
-				incs := 0
-				for w := range phiWeb(v) {
-					add, ok := w.(*ssa.BinOp)
-					if !ok || add.Op != token.ADD {
-						continue
-					}
-					incs++
-					if ok2, _ := ck.MustPass(add.Block(), []guard.Atom{guard.Eq("*order/keeper.Keeper.GetShard(*)#0.Status", waiting)}); !ok2 {
-						okCounter = false
-						why = "the counter subtracted is incremented at " + r.P.Pos(add.Pos()) + " without establishing shard.Status == ShardWaiting"
-					}
+				fa, ok := st.Addr.(*ssa.FieldAddr)
+				if !ok || fieldPath(fa) != "order/types.Order.Replica" {
+					continue
 				}
-				if incs == 0 {
-					okCounter = false
-					why = "the value subtracted is never incremented"
+				bo, ok := st.Val.(*ssa.BinOp)
+				if !ok || bo.Op != token.SUB {
+					continue
 				}
-			}
-			if okCounter {
-				r.Discharge(id, key, r.P.Pos(st.Pos()), "Replica is lowered by the number of shards found waiting")
-			} else {
-				r.Violate(id, key, r.P.Pos(st.Pos()), "the timeout handler lowers Order.Replica (and refunds price x size x duration per replica from the market escrow) by something other than the number of shards still waiting: "+why+". Records of earlier re-assignments (status timeout) or in-flight migrations are not replicas; counting them refunds replicas that are stored and earning, so the market escrow owes its providers more than it holds")
+				n++
+				key := core.Key(id, fnName, fmt.Sprintf("Replica decrement#%d", n))
+				okCounter, why := countsWaiting(r, fn, fr, bo.Y, 0)
+				if why == "" {
+					why = "the amount subtracted (" + shorten(normT(res.Of(bo.Y).String())) + ") is not a counter"
+				}
+				if okCounter {
+					r.Discharge(id, key, r.P.Pos(st.Pos()), "Replica is lowered by the number of shards found waiting")
+				} else {
+					r.Violate(id, key, r.P.Pos(st.Pos()), "the timeout handler lowers Order.Replica (and refunds price x size x duration per replica from the market escrow) by something other than the number of shards still waiting: "+why+". Records of earlier re-assignments (status timeout) or in-flight migrations are not replicas; counting them refunds replicas that are stored and earning, so the market escrow owes its providers more than it holds")
+				}
 			}
 		}
 	}
 	r.Floor("replica_decrements", n, 1)
+}
+
+// parentFrame: the frame of the caller that leads to fr (nil for the anchor's own frame).
+func parentFrame(r *core.Run, anchor *ssa.Function, fr frame) *frame {
+	if len(fr.Chain) == 0 {
+		return nil
+	}
+	for _, p := range frames(r, anchor) {
+		if len(p.Chain) != len(fr.Chain)-1 {
+			continue
+		}
+		same := true
+		for i := range p.Chain {
+			if p.Chain[i] != fr.Chain[i] {
+				same = false
+			}
+		}
+		if same {
+			q := p
+			return &q
+		}
+	}
+	return nil
+}
+
+// countsWaiting: the value is the number of shards found in waiting status — a counter incremented only under
+// shard.Status == ShardWaiting, or the length of a list that collects only such shards; a helper's parameter is
+// followed to the argument of the call that leads there.
+func countsWaiting(r *core.Run, anchor *ssa.Function, fr frame, v ssa.Value, depth int) (bool, string) {
+	waiting := guard.Eq("*order/keeper.Keeper.GetShard(*)#0.Status", constVal(r, "order/types", "ShardWaiting"))
+	for {
+		if c, ok := v.(*ssa.Convert); ok {
+			v = c.X
+			continue
+		}
+		break
+	}
+	switch x := v.(type) {
+	case *ssa.Phi:
+		ck := &guard.Checker{P: r.P, Fn: fr.Fn, Res: r.Resolver(fr.Fn)}
+		incs := 0
+		for w := range phiWeb(v) {
+			add, ok := w.(*ssa.BinOp)
+			if !ok || add.Op != token.ADD {
+				continue
+			}
+			incs++
+			if ok2, _ := ck.MustPass(add.Block(), []guard.Atom{waiting}); !ok2 {
+				return false, "the counter subtracted is incremented at " + r.P.Pos(add.Pos()) + " without establishing shard.Status == ShardWaiting"
+			}
+		}
+		if incs == 0 {
+			return false, "the value subtracted is never incremented"
+		}
+		return true, ""
+	case *ssa.Call:
+		if bi, ok := x.Call.Value.(*ssa.Builtin); ok && bi.Name() == "len" && len(x.Call.Args) == 1 {
+			l := x.Call.Args[0]
+			if isCollected(r, l) && listFedOnlyUnderV(r, fr.Fn, l, guard.Eq("*.Status", constVal(r, "order/types", "ShardWaiting"))) {
+				return true, ""
+			}
+			return false, "the length subtracted is that of a list that is not fed only with shards in waiting status"
+		}
+	case *ssa.Parameter:
+		if p := parentFrame(r, anchor, fr); p != nil && depth < 3 {
+			call := fr.Chain[len(fr.Chain)-1]
+			for j, q := range fr.Fn.Params {
+				if q == x && j < len(call.Common().Args) {
+					return countsWaiting(r, anchor, *p, call.Common().Args[j], depth+1)
+				}
+			}
+		}
+	}
+	return false, ""
 }
